@@ -619,6 +619,9 @@ def run(chk):
     d3b(chk, prog)
     d3(chk, prog)
     d4(chk, prog)
+    chk.clause("D4b", "the interval operations keep no state between calls (C10-D4 shared-state rule over skgenome): resize_ranges(bp) after resize_ranges(bp, chrom_sizes) does not see the earlier sizes")
+    from . import C10
+    C10.shared_state(chk, prog, modules=("skgenome",))
     spans = [(1000, 300, 0), (1000, 3000, 0), (100, 300, 0), (449, 300, 0), (450, 300, 0), (751, 300, 0), (1500, 300, 0), (1800, 300, 0),
              (299, 300, 300), (300, 300, 300), (301, 300, 300), (10, 300, 11), (7, 2, 0), (1798, 200 / 0.75, 0), (2000, 300, 0), (250, 100, 0), (350, 100, 0), (450, 100, 0)]
     if chk.tier == "thorough":
